@@ -42,7 +42,8 @@ INVARIANT GroupsGenuine
 INVARIANT GroupsDisjoint
 CHECK_DEADLOCK FALSE
 """
-BODY = {"": b"", "a": b"int x;\n", "b": b"int y;\n", "ab": b"int x;\n\n", "A": b"int X;\n"}
+# "a" and its near twins: an extra blank line, no final newline, DOS line ending, other letter case
+BODY = {"": b"", "a": b"int x;\n", "b": b"int y;\n", "ab": b"int x;\n\n", "A": b"int X;\n", "an": b"int x;", "ac": b"int x;\r\n"}
 
 
 def materialise(case, d, two_dirs=False):
@@ -153,7 +154,7 @@ def run(ctx):
     ctx.add_tlc("MC Duplicates loop model (every content map, digest, pop order)", r)
     if r.violation:
         ctx.model_violation("Duplicates", r)
-    gen = GEN_CFG.format(n=4 if q else 5, pool=tla_set(["", "a", "ab", "A"] if q else ["", "a", "ab", "A", "b"]),
+    gen = GEN_CFG.format(n=4 if q else 5, pool=tla_set(["", "a", "ab", "an", "ac"]),
                          kinds=tla_set(["reg", "sym", "hard", "excl", "nosrc"]), shard="@SHARD@", nshards="@NSHARDS@")
     cases = runner.sharded_tlc(ctx, "Duplicates", gen, 8, "GenDuplicates", timeout=3000)
     big = core.tlc("Duplicates", "Duplicates_big.cfg", workers=1, timeout=600, tag="dupBig")
